@@ -114,6 +114,8 @@ type Task struct {
 	held    []string       // database locks held, "srv|id", in acquisition order
 	heldBy  map[string]string // held key -> library function that took it
 	netOcc  map[string]int    // real transport: deliveries per recipient URL of this batch
+	cancel  func()            // cancels the request's context (fault ctx_cancel)
+	Snap    map[string]string // database of the request's server when the request started (top-level requests)
 	fn      func()
 	// outcome of an entry call
 	Handled  bool
@@ -393,7 +395,7 @@ func (s *Sim) enabled(t *Task) bool {
 		}
 		return true
 	case opLock:
-		if s.faultsAt[op.Site] != nil {
+		if f := s.faultsAt[op.Site]; f != nil && f.Kind != "ctx_cancel" {
 			return true
 		}
 		h := s.locks[op.Srv+"|"+op.ID]
@@ -491,8 +493,15 @@ func (s *Sim) loop() {
 		if op.Site != "" {
 			s.Sites = append(s.Sites, op.Site)
 			if f := s.faultsAt[op.Site]; f != nil {
-				msg.fault = f
 				s.Fired[f.Kind]++
+				if f.Kind == "ctx_cancel" {
+					// the peer hangs up / the deadline passes: the request's context is cancelled, the call itself succeeds
+					if root := rootOf(t); root.cancel != nil {
+						root.cancel()
+					}
+				} else {
+					msg.fault = f
+				}
 			}
 		}
 		switch op.Kind {
@@ -644,6 +653,13 @@ func newChooser(sp SchedSpec) *chooser {
 		}
 	}
 	return c
+}
+
+func rootOf(t *Task) *Task {
+	for t.Parent != nil && t.Origin == "lib" {
+		t = t.Parent
+	}
+	return t
 }
 
 func lowest(en []*Task) *Task {
